@@ -105,6 +105,24 @@ fn tab_after_break_in_tail(json: &[u8]) -> bool {
     json[end..].windows(2).any(|w| (w[0] == b'\n' || w[0] == b'\r') && w[1] == b'\t')
 }
 
+/// Open finding: a JSON text whose root value is a scalar on a line that starts with a tab
+/// (`\t"a"`, `\n\t1`) is rejected ("tab character used for indentation").
+const SIG_JSON_LEAD_TAB: &str = "C26/json-input-rejected/tab-at-line-start-before-root-scalar";
+
+/// index of the tab that starts the line on which a *scalar* root value begins
+fn tab_starts_root_scalar_line(json: &[u8]) -> Option<usize> {
+    let s = json.iter().position(|b| !matches!(b, b' ' | b'\t' | b'\n' | b'\r'))?;
+    if json[s] == b'[' || json[s] == b'{' {
+        return None;
+    }
+    let line_start = json[..s].iter().rposition(|&b| b == b'\n' || b == b'\r').map(|p| p + 1).unwrap_or(0);
+    if line_start < s && json[line_start] == b'\t' {
+        Some(line_start)
+    } else {
+        None
+    }
+}
+
 /// Open finding: a number / `true` / `false` / `null` followed by white space with two or
 /// more line breaks (a blank line) inside a JSON array or object is read as a string with
 /// the folded line break attached (`[1\n\n]` gives `["1\n"]`).
@@ -287,7 +305,7 @@ pub fn check_case(c: &Case, st: &mut Stats) -> Result<Outcome, Fail> {
         Err(f) => f,
         ok => return ok,
     };
-    if f.sig.starts_with("C26/crash") || f.sig == SIG_JSON_TAIL_TAB {
+    if f.sig.starts_with("C26/crash") || f.sig == SIG_JSON_TAIL_TAB || f.sig == SIG_JSON_LEAD_TAB {
         return Err(f);
     }
     let mut fixed = c.clone();
@@ -355,8 +373,13 @@ fn check_inner(c: &Case, st: &mut Stats) -> Result<Outcome, Fail> {
             ));
         }
     }
-    if rs[0].out.code != Some(0) && rs[0].err.contains("tab character used for indentation") && tab_after_break_in_tail(&c.json) {
-        return Err(Fail::new(SIG_JSON_TAIL_TAB, detail(&rs, json!({}))));
+    if rs[0].out.code != Some(0) && rs[0].err.contains("tab character used for indentation") {
+        if tab_starts_root_scalar_line(&c.json).is_some() {
+            return Err(Fail::new(SIG_JSON_LEAD_TAB, detail(&rs, json!({}))));
+        }
+        if tab_after_break_in_tail(&c.json) {
+            return Err(Fail::new(SIG_JSON_TAIL_TAB, detail(&rs, json!({}))));
+        }
     }
     for r in &rs[1..] {
         if r.out.code != rs[0].out.code {
@@ -435,6 +458,8 @@ struct Avoid {
     blank_line: bool,
     /// a surrogate pair escape in a JSON string
     surrogates: bool,
+    /// a tab starting the line of a scalar root value
+    lead_tab: bool,
 }
 
 struct Generated {
@@ -456,6 +481,11 @@ fn gen_case(u: &mut Src, av: Avoid) -> Generated {
     let mut json = gj::render(&j, u, ro).text;
     if av.surrogates {
         surrogate_pairs_to_raw(&mut json);
+    }
+    if av.lead_tab {
+        if let Some(i) = tab_starts_root_scalar_line(&json) {
+            json[i] = b' ';
+        }
     }
     if av.blank_line {
         bare_scalar_before_blank_line(&mut json, true);
@@ -522,6 +552,7 @@ fn run_case(u: &mut Src, st: &mut Stats, av: Avoid) -> Result<(), Fail> {
     let g = gen_case(u, av);
     st.class_if(tab_after_break_in_tail(&g.case.json), "json:tab-after-line-break-in-tail");
     st.class_if(surrogate_pairs_to_raw(&mut g.case.json.clone()), "json:surrogate-pair-escape");
+    st.class_if(tab_starts_root_scalar_line(&g.case.json).is_some(), "json:tab-starts-root-scalar-line");
     st.class_if(bare_scalar_before_blank_line(&mut g.case.json.clone(), false), "json:blank-line-after-bare-scalar");
     classify(&g, st);
     st.describe(|| describe(&g.case));
@@ -573,9 +604,9 @@ pub fn run(cx: &mut Ctx) {
             cx.replay_outcome(&name, r);
         }
     }
-    let av = Avoid { tail_tab: cx.is_known(SIG_JSON_TAIL_TAB), blank_line: cx.is_known(SIG_JSON_BLANK_LINE), surrogates: cx.is_known(SIG_JSON_SURROGATES) };
-    if av.tail_tab || av.blank_line || av.surrogates {
-        cx.note("open findings: `three-syntaxes` does not generate the JSON shapes of the findings listed as known (tab after a line break in trailing white space / blank line after a bare scalar / surrogate pair escapes); `open-finding-shapes` generates them");
+    let av = Avoid { tail_tab: cx.is_known(SIG_JSON_TAIL_TAB), blank_line: cx.is_known(SIG_JSON_BLANK_LINE), surrogates: cx.is_known(SIG_JSON_SURROGATES), lead_tab: cx.is_known(SIG_JSON_LEAD_TAB) };
+    if av.tail_tab || av.blank_line || av.surrogates || av.lead_tab {
+        cx.note("open findings: `three-syntaxes` does not generate the JSON shapes of the findings listed as known (tab after a line break in trailing white space / tab before a root scalar / blank line after a bare scalar / surrogate pair escapes); `open-finding-shapes` generates them");
     }
     cx.check("three-syntaxes", RULE, Budget { quick: 4_000, thorough: 200_000, max_len: 2500 }, |u, st| run_case(u, st, av));
     for cl in [
